@@ -49,6 +49,11 @@ def partition_by_construction(ctx: Ctx) -> None:
         in_yield = {x.id for y in ast.walk(lp) if isinstance(y, ast.Yield) for x in ast.walk(y) if isinstance(x, ast.Name)}
         cand = [a for a in assigned if a.targets[0].id in in_yield and any(isinstance(x, ast.Name) and x.id in (lname, iname) for x in ast.walk(a.value))]
         sels = cand if cand else [a for a in assigned if isinstance(a.value, ast.Compare)]
+        if not sels:
+            # the selection written in place inside the yielded expression (no local of its own)
+            inline = [c for y in ast.walk(lp) if isinstance(y, ast.Yield) for c in ast.walk(y) if isinstance(c, ast.Compare)
+                      and any(isinstance(x, ast.Name) and x.id in (lname, iname) for x in ast.walk(c))]
+            sels = [ast.Assign(targets=[ast.Name(id='_', ctx=ast.Store())], value=c, lineno=c.lineno, col_offset=c.col_offset) for c in inline]
         good = len(sels) == 1 and norm(sels[0].value) in (f'{lname} == {iname}', f'{iname} == {lname}')
         (ctx.ok if good else ctx.bad)(R, f, sels[0] if sels else lp, f'selection = {lname} == {iname}' if good else
                                       f'members of group {iname} are selected by `{norm(sels[0].value) if sels else "?"}` instead of `{lname} == {iname}`: rows land in another group or in several', key=f'{key}:selection')
@@ -130,8 +135,8 @@ def group_pairs(ctx: Ctx) -> None:
         for y in ys:
             v = y.value
             ok = isinstance(v, ast.Tuple) and len(v.elts) == 2 and isinstance(v.elts[1], ast.Call) and call_name(v.elts[1]) == 'self._extract_iloc' and len(v.elts[1].args) == 1 \
-                and isinstance(v.elts[1].args[0], ast.Name)
-            if ok:
+                and isinstance(v.elts[1].args[0], (ast.Name, ast.Compare))
+            if ok and isinstance(v.elts[1].args[0], ast.Name):
                 # the argument is the loop's member selection (a local assigned in the enclosing loop from a comparison)
                 nm = v.elts[1].args[0].id
                 ok = any(isinstance(a, ast.Assign) and isinstance(a.targets[0], ast.Name) and a.targets[0].id == nm and isinstance(a.value, ast.Compare) for a in walk_local(sm.node))
